@@ -8,7 +8,7 @@ LAYOUTS = ['TRS_desc', 'TR_desc_S', 'desc_STR', 'S_desc_TR']
 BLOCKS = ['NE/4', 'W/2', 'Lots 1 - 3, S/2N/2', 'ALL', 'S/2SW/4', 'That part of the N/2 lying north of the river',
           'Lot 1(38.29), Lot 2', 'NE/4NW/4; S/2NW/4', 'A tract of land beginning at the NE corner, thence S 330 feet',
           'N/2 of Lot 5', 'E/2 less and except the wellbore of the Johnston #1 well', 'SE/4, including all accretions',
-          'The East 80 rods thereof', 'W½SE¼']
+          'The East 80 rods thereof', 'W½SE¼', 'Lot 3 of the \u0130ST\u0130KLAL Tract', 'Block \u0130\u0130\u0130 of the Stra\u00dfe Addition']
 MULTILINE_BLOCKS = ['NE/4\nW/2SW/4', 'Lots 1, 2\nS/2NE/4']
 
 
@@ -85,18 +85,19 @@ def expected_tracts(D):
 LAST_CONNS = []   # connectors used by the last render() for the first block of each Twp/Rge group
 
 
-def render(r, D, layout, spell=None, canonical=False, conns=None):
+def render(r, D, layout, spell=None, canonical=False, conns=None, colons=None):
     """one of the documented renderings of D in the given layout; conns = connectors allowed between a
     description block and the section reference that follows it (default: ' of ')"""
     parts = []
     del LAST_CONNS[:]
     conns = conns or [' of ']
+    colons = colons or [':']       # how the colon after a section reference is written (blanks of any kind may precede it)
     for (t, ns, rg, ew), secs in D:
         sp = twprge_spellings(t, ns, rg, ew)
         tr = sp[0] if canonical else (sp[spell % len(sp)] if spell is not None else r.choice(sp))
         gsep = '\n' if canonical else r.choice(['\n', ', ', '; '])
         if layout == 'TRS_desc':
-            body = gsep.join(f'{render_secgroup(r, g)}: {b}' for g, b in secs)
+            body = gsep.join(f'{render_secgroup(r, g)}{r.choice(colons) if len(colons) > 1 else colons[0]} {b}' for g, b in secs)
             parts.append(tr + ('\n' if canonical else r.choice(['\n', ', ', ' '])) + body)
         elif layout == 'TR_desc_S':
             cs = [r.choice(conns) if len(conns) > 1 else conns[0] for _ in secs]
@@ -109,6 +110,6 @@ def render(r, D, layout, spell=None, canonical=False, conns=None):
             body = gsep.join(f'{b}{c}{render_secgroup(r, g)}' for (g, b), c in zip(secs, cs))
             parts.append(body + ', ' + tr)
         else:
-            body = gsep.join(f'{render_secgroup(r, g)}: {b}' for g, b in secs)
+            body = gsep.join(f'{render_secgroup(r, g)}{r.choice(colons) if len(colons) > 1 else colons[0]} {b}' for g, b in secs)
             parts.append(body + ', ' + tr)
     return ('\n' if canonical else r.choice(['\n', '\n\n', '; '])).join(parts)
